@@ -1287,6 +1287,28 @@ static double ks_sup(std::vector<double>& v, Cdf&& F, size_t stride)
     }
     return d;
 }
+//! version for laws with atoms: F is the right-continuous CDF, Fl its left limit F(x-); the
+//! fraction of samples < x is compared with F(x-), the fraction <= x with F(x)
+template<class Cdf, class CdfL>
+static double ks_sup_lr(std::vector<double>& v, Cdf&& F, CdfL&& Fl, size_t stride)
+{
+    std::sort(v.begin(), v.end());
+    size_t const N = v.size();
+    double d = 0;
+    if (!N)
+        return 0;
+    for (size_t i = 0;; i += stride)
+    {
+        if (i >= N)
+            i = N - 1;
+        auto er = std::equal_range(v.begin(), v.end(), v[i]);
+        double lo = double(er.first - v.begin()) / N, hi = double(er.second - v.begin()) / N;
+        d = std::max(d, std::max(std::fabs(double(Fl(v[i])) - lo), std::fabs(double(F(v[i])) - hi)));
+        if (i == N - 1)
+            break;
+    }
+    return d;
+}
 //! discrete version: CDF compared at every atom
 template<class Cdf>
 static double ks_sup_discrete(std::vector<double> const& v, Cdf&& F)
@@ -1355,6 +1377,27 @@ struct Quad
             double d = ks_sup(q.first, F, stride);
             judge("cdf|first-attempt-accepted", d, l, 0, nf, 2.0 / p);
         }
+        R.count("evaluations", N);
+        R.maxi(("max_canonicals:" + family).c_str(), q.max_canon);
+        R.tag("quad:" + family);
+        if (q.n_tail)
+            R.tag("quad:tail-used:" + family, q.n_tail);
+        R.nontrivial(vf::hash_str(cid));
+    }
+    //! continuous scalar sampler whose law also has atoms (F right-continuous, Fl = left limit)
+    template<class Fn, class Cdf, class CdfL>
+    void continuous_lr(Lattice const& L, std::vector<double> const& pieces, Fn&& fn, Cdf&& F, CdfL&& Fl,
+                       size_t stride = 1)
+    {
+        QuadOut q = run_lattice(L, seed(), fn);
+        uint64_t const N = q.all.size();
+        for (double x : q.all)
+            if (!std::isfinite(x))
+            {
+                R.violation("quad:" + family + ":non-finite", cid, "non-finite sample on the lattice");
+                return;
+            }
+        judge("cdf", ks_sup_lr(q.all, F, Fl, stride), L.lterm(pieces), q.n_tail, N);
         R.count("evaluations", N);
         R.maxi(("max_canonicals:" + family).c_str(), q.max_canon);
         R.tag("quad:" + family);
@@ -1787,6 +1830,213 @@ static std::vector<QuadCase> build_quad_cases(ElossWorld& W, bool thorough)
                 Q.R.count("evaluations", q.all.size());
                 Q.R.tag("quad:eloss-urban(info)");
             });
+        }
+        // Urban sampling STAGES (private members reached with -fno-access-control).  The model is a sum
+        // of independent stages whose laws are explicit (Geant4 PRM 7.3.2 / GEANT3 PHYS332 2.4, restated
+        // in the class comments); every stage is judged against its analytic CDF given the constructor's
+        // outputs (xs_exc_, binding_energy_, xs_ion_, max_energy_), and the constructor's outputs are
+        // judged separately against the mean-loss identity in part "support".  One case per branch:
+        //   fast(mean,sd)            sd <= 4 mean: N(mean,sd) truncated to (0,2 mean]; else U(0,2 mean)
+        //   excitation, level fast   contributes (xs_i E_i, xs_i E_i^2) to ONE truncated normal:
+        //                            mean = sum xs_i E_i, variance = sum xs_i E_i^2 over the fast levels
+        //   excitation, level Poisson  n ~ Poisson(xs_i); n = 0: nothing, else E_i U(n-1,n+1)
+        //   ionisation, xs_ion <= 8  n ~ Poisson(xs_ion) collisions of E0/U(E0/Tmax,1) (density ~ 1/E^2 on
+        //                            [E0,Tmax])
+        {
+            ElossWorld* w = &W;
+            struct US
+            {
+                int mat;
+                double loss, tmax, two_mebsgs, bsq;
+            };
+            auto make = [w](US u) {
+                MaterialTrackView material(w->materials->host_ref(), w->mstate.ref(), TrackSlotId{0});
+                material = {MaterialId(u.mat)};
+                return EnergyLossUrbanDistribution(w->fluct->host_ref(), material, units::MevEnergy{u.loss},
+                                                   units::MevEnergy{u.tmax}, units::MevMass{u.two_mebsgs}, u.bsq);
+            };
+            // truncated normal on (0, 2m]: CDF G and its antiderivative H (integral of G from -inf)
+            struct TN
+            {
+                ld m, s;  // s == 0: no Gaussian part (G = step at 0)
+                ld lo() const { return Phi(-m / s); }
+                ld hi() const { return Phi(m / s); }
+                ld G(ld y) const
+                {
+                    if (s == 0)
+                        return y >= 0 ? 1 : 0;
+                    if (y <= 0)
+                        return 0;
+                    if (y >= 2 * m)
+                        return 1;
+                    return (Phi((y - m) / s) - lo()) / (hi() - lo());
+                }
+                ld H(ld y) const
+                {
+                    if (s == 0)
+                        return y > 0 ? y : 0;
+                    if (y <= 0)
+                        return 0;
+                    // int Phi(z) dz = z Phi(z) + phi(z)
+                    auto A = [](ld z) { return z * Phi(z) + expl(-z * z / 2) / sqrtl(2 * kPi); };
+                    ld yy = y < 2 * m ? y : 2 * m;
+                    ld in = (s * (A((yy - m) / s) - A(-m / s)) - lo() * yy) / (hi() - lo());
+                    return in + (y > 2 * m ? y - 2 * m : 0);
+                }
+            };
+            // law of  [Poisson(lam) smear of level energy E]  +  [TN]  (independent)
+            auto smear_cdf = [](ld lam, ld E, TN g) {
+                return [=](double x) {
+                    ld f = expl(-lam) * g.G(x);
+                    for (int n = 1; n < 200; ++n)
+                    {
+                        ld pn = expl(-lam + n * logl(lam) - lgammal(ld(n) + 1));
+                        f += pn * (g.H(ld(x) - (n - 1) * E) - g.H(ld(x) - (n + 1) * E)) / (2 * E);
+                    }
+                    return f;
+                };
+            };
+
+            //// fast(mean, sd) ////
+            for (auto p : std::vector<std::pair<double, double>>{{1, 0.5}, {1, 3.9}, {3e-3, 1e-3}})
+            {
+                double m = p.first, sd = p.second;
+                add("eloss-urban", fmt("stage:fast:mean=%g,sd=%g (truncated normal)", m, sd), [=](Quad& Q) {
+                    TN g{m, sd};
+                    Q.continuous(L2, bm2,
+                                 [=](Eng& e) { return EnergyLossUrbanDistribution::sample_fast_urban(m, sd, e); },
+                                 [=](double x) { return g.G(x); }, 1, true);
+                    Q.R.tag("quad:urban-stage:fast-gaussian");
+                });
+            }
+            add("eloss-urban", "stage:fast:mean=1,sd=4.5 (uniform on (0,2 mean))", [=](Quad& Q) {
+                Q.continuous(L1, mono1,
+                             [=](Eng& e) { return EnergyLossUrbanDistribution::sample_fast_urban(1.0, 4.5, e); },
+                             [=](double x) { return ld(x) / 2; });
+                Q.R.tag("quad:urban-stage:fast-uniform");
+            });
+
+            //// excitation: both levels fast / level 1 fast and level 2 off ////
+            struct ExcFast
+            {
+                US u;
+                bool both;
+                char const* what;
+            };
+            std::vector<ExcFast> efs = {{{1, 2.0, 50.0, 1e3, 0.99}, true, "Ar,loss=2,Tmax=50"},
+                                        {{1, 2.0, 1e-3, 1e3, 0.99}, true, "Ar,loss=2,Tmax=0.001(width-correction)"},
+                                        {{1, 20.0, 1.0, 50.0, 0.98}, true, "Ar,loss=20,Tmax=1"},
+                                        {{0, 0.01, 1.0, 1e3, 0.99}, false, "H2,loss=0.01,Tmax=1"}};
+            for (auto ef : efs)
+                add("eloss-urban",
+                    fmt("stage:excitation:%s:%s", ef.both ? "both-levels-fast" : "level1-fast,level2-off", ef.what),
+                    [=](Quad& Q) {
+                        EnergyLossUrbanDistribution d = make(ef.u);
+                        bool f0 = d.xs_exc_[0] > 8, f1 = d.xs_exc_[1] > 8;
+                        if (!(f0 && (ef.both ? f1 : d.xs_exc_[1] == 0)))
+                        {
+                            Q.R.harness_error(fmt("%s: excitation regime is not the declared one (xs_exc=%g,%g)",
+                                                  Q.cid.c_str(), d.xs_exc_[0], d.xs_exc_[1]));
+                            return;
+                        }
+                        ld m = 0, var = 0;
+                        for (int i = 0; i < 2; ++i)
+                        {
+                            m += ld(d.xs_exc_[i]) * d.binding_energy_[i];
+                            var += ld(d.xs_exc_[i]) * d.binding_energy_[i] * d.binding_energy_[i];
+                        }
+                        TN g{m, sqrtl(var)};
+                        Q.R.note("info:" + Q.cid, fmt("xs_exc=(%g,%g) E=(%g,%g): truncated normal mean=%Lg sd=%Lg",
+                                                      d.xs_exc_[0], d.xs_exc_[1], d.binding_energy_[0],
+                                                      d.binding_energy_[1], g.m, g.s));
+                        Q.continuous(L2, bm2, [&](Eng& e) { return d.sample_excitation_loss(e); },
+                                     [=](double x) { return g.G(x); }, 1, true);
+                        Q.R.tag(ef.both ? "quad:urban-stage:exc-both-fast" : "quad:urban-stage:exc-level1-fast-only");
+                    });
+
+            //// excitation: one level in the Poisson branch (+ the other fast or off) ////
+            struct ExcPois
+            {
+                US u;
+                int level;  // the Poisson level
+                char const* what;
+            };
+            std::vector<ExcPois> eps = {{{0, 1e-4, 1.0, 1e3, 0.99}, 0, "H2,loss=1e-4,Tmax=1 (level 1 Poisson, level 2 off)"},
+                                        {{0, 1e-3, 1e-3, 1e3, 0.99}, 0, "H2,loss=1e-3,Tmax=0.001 (level 1 Poisson, level 2 off)"},
+                                        {{1, 0.1, 1.0, 1e3, 0.99}, 1, "Ar,loss=0.1,Tmax=1 (level 1 fast, level 2 Poisson)"},
+                                        {{1, 0.5, 50.0, 1e3, 0.99}, 1, "Ar,loss=0.5,Tmax=50 (level 1 fast, level 2 Poisson)"}};
+            for (auto ep : eps)
+                add("eloss-urban", fmt("stage:excitation:poisson-level:%s", ep.what), [=](Quad& Q) {
+                    EnergyLossUrbanDistribution d = make(ep.u);
+                    int const i = ep.level, j = 1 - i;
+                    bool ok = d.xs_exc_[i] > 0 && d.xs_exc_[i] <= 8 && (d.xs_exc_[j] > 8 || d.xs_exc_[j] == 0)
+                              && (i == 1 || d.xs_exc_[1] == 0);
+                    if (!ok)
+                    {
+                        Q.R.harness_error(fmt("%s: excitation regime is not the declared one (xs_exc=%g,%g)",
+                                              Q.cid.c_str(), d.xs_exc_[0], d.xs_exc_[1]));
+                        return;
+                    }
+                    TN g{0, 0};
+                    if (d.xs_exc_[j] > 8)
+                        g = TN{ld(d.xs_exc_[j]) * d.binding_energy_[j], sqrtl(ld(d.xs_exc_[j])) * d.binding_energy_[j]};
+                    ld const lam = d.xs_exc_[i], E = d.binding_energy_[i];
+                    auto F = smear_cdf(lam, E, g);
+                    Q.R.note("info:" + Q.cid, fmt("xs_exc=(%g,%g) E=(%g,%g)", d.xs_exc_[0], d.xs_exc_[1],
+                                                  d.binding_energy_[0], d.binding_energy_[1]));
+                    // the first canonicals are the Poisson uniforms: {n <= k} is decreasing in each of
+                    // them (one monotone piece per axis, as for the Poisson cases above); everything
+                    // after them comes from the tail.  The only atom is the zero loss (n = 0, no
+                    // Gaussian part).
+                    Q.continuous_lr(L2, mono2, [&](Eng& e) { return d.sample_excitation_loss(e); }, F,
+                                    [=](double x) { return (g.s == 0 && x == 0) ? ld(0) : ld(F(x)); }, 16);
+                    Q.R.tag(d.xs_exc_[j] > 8 ? "quad:urban-stage:exc-poisson+fast" : "quad:urban-stage:exc-poisson-only");
+                });
+
+            //// ionisation, Poisson-only regime (xs_ion <= 8, alpha = 1) ////
+            std::vector<std::pair<US, char const*>> ios = {{{0, 1e-4, 1e-3, 1e3, 0.99}, "H2,loss=1e-4,Tmax=0.001"},
+                                                           {{2, 6e-5, 5e-4, 1e3, 0.99}, "Pb,loss=6e-5,Tmax=5e-4(Tmax<=I: no excitation)"},
+                                                           {{1, 1e-4, 50.0, 1e3, 0.99}, "Ar,loss=1e-4,Tmax=50"}};
+            for (auto io : ios)
+            {
+                US u = io.first;
+                add("eloss-urban", fmt("stage:ionisation:poisson-only:%s:P(no collision)", io.second), [=](Quad& Q) {
+                    EnergyLossUrbanDistribution d = make(u);
+                    if (!(d.xs_ion_ > 0 && d.xs_ion_ <= 8))
+                    {
+                        Q.R.harness_error(fmt("%s: xs_ion=%g is not in the Poisson-only regime", Q.cid.c_str(), d.xs_ion_));
+                        return;
+                    }
+                    ld const p0 = expl(-ld(d.xs_ion_));
+                    Q.R.note("info:" + Q.cid, fmt("xs_ion=%g", d.xs_ion_));
+                    // zero loss <=> no collision <=> first uniform <= exp(-xs_ion): depends on u1 only
+                    Q.discrete(L1, mono1, [&](Eng& e) { return d.sample_ionization_loss(e) == 0 ? 0.0 : 1.0; },
+                               [=](long long k) { return double(k < 0 ? 0 : (k == 0 ? p0 : 1)); });
+                    Q.R.tag("quad:urban-stage:ion-poisson-only");
+                });
+                add("eloss-urban", fmt("stage:ionisation:poisson-only:%s:single-collision-spectrum", io.second), [=](Quad& Q) {
+                    EnergyLossUrbanDistribution d = make(u);
+                    // the two Poisson uniforms are fixed at 1/2 (0 lattice bits): exactly one collision
+                    // iff 1/2 > exp(-xs) >= 1/4; its energy is then a function of the third canonical
+                    ld const p0 = expl(-ld(d.xs_ion_));
+                    if (!(d.xs_ion_ <= 8 && p0 < 0.5L && p0 >= 0.25L))
+                    {
+                        Q.R.tag("quad:urban-stage:ion-single-collision:skipped(xs not in (ln2,ln4])");
+                        return;
+                    }
+                    ld const e0 = 1e-5L, tmax = d.max_energy_;
+                    Lattice L3{{0, 0, b1}};
+                    Q.continuous(L3, {0, 0, 1}, [&](Eng& e) { return d.sample_ionization_loss(e); },
+                                 [=](double x) {
+                                     if (x <= e0)
+                                         return ld(0);
+                                     if (x >= tmax)
+                                         return ld(1);
+                                     return (1 - e0 / ld(x)) / (1 - e0 / tmax);
+                                 });
+                    Q.R.tag("quad:urban-stage:ion-single-collision");
+                });
+            }
         }
     }
     return C;
